@@ -143,7 +143,7 @@ def gen_recipe(t, rng, alloc, p_expr=0.5, p_copy=0.08, p_bad=0.0, maxlen=4, dept
     if bits is not None:
         r = rng.random()
         if r < p_expr:
-            return ("iexpr", alloc.new_int(bits))
+            return ("iexpr", alloc.new_int(bits), rng.choice(INT_WRAPS))
         if r < p_expr + 0.1:
             return ("iconst", good_int(rng, bits))
         if rng.random() < p_bad:
@@ -152,7 +152,7 @@ def gen_recipe(t, rng, alloc, p_expr=0.5, p_copy=0.08, p_bad=0.0, maxlen=4, dept
     if k == "bool":
         r = rng.random()
         if r < p_expr:
-            return ("iexpr", alloc.new_int(64))
+            return ("iexpr", alloc.new_int(64), rng.choice(INT_WRAPS))
         if r < p_expr + 0.1:
             return ("iconst", rng.choice([0, 1, 2, U64 - 1]))
         return ("bool", rng.random() < 0.5)
@@ -198,6 +198,26 @@ def gen_recipe(t, rng, alloc, p_expr=0.5, p_copy=0.08, p_bad=0.0, maxlen=4, dept
             ch = ch[:-1]
         return ("members", [gen_recipe(x, rng, alloc, p_expr, p_copy, p_bad, maxlen, depth + 1) for x in ch])
     raise ValueError("gen_recipe: %r" % (t,))
+
+
+INT_WRAPS = [None, "btoi", "extract32", "extract16", "getbyte", "getbit", "mul1", "add0", "if", "scratch", "subcall", "extract64"]
+
+
+def wrap_value(wrap, n):
+    """the uint64 an integer source expression of shape `wrap` evaluates to when run-time number k is n"""
+    if wrap == "extract32":
+        return n & 0xFFFFFFFF
+    if wrap == "extract16":
+        return n & 0xFFFF
+    if wrap == "getbyte":
+        return n & 0xFF
+    if wrap == "getbit":
+        return n & 1
+    return n
+
+
+def iexpr_value(r, ints):
+    return wrap_value(r[2] if len(r) > 2 else None, ints[r[1]])
 
 
 def xcopy_source(t):
@@ -283,7 +303,7 @@ def _value(t, r, ints, byts, state):
                 raise Reject("int %d does not fit uint%d" % (r[1], bits))
             return r[1]
         if f in ("iexpr", "iconst"):
-            n = ints[r[1]] if f == "iexpr" else r[1]
+            n = iexpr_value(r, ints) if f == "iexpr" else r[1]
             if n >= (1 << bits):
                 state["fail"] = True
                 return n % (1 << bits)
@@ -293,7 +313,7 @@ def _value(t, r, ints, byts, state):
         if f == "bool":
             return bool(r[1])
         if f in ("iexpr", "iconst"):
-            n = ints[r[1]] if f == "iexpr" else r[1]
+            n = iexpr_value(r, ints) if f == "iexpr" else r[1]
             return n != 0
         raise Reject("form %s at bool" % f)
     if is_bytes_like(t):
@@ -394,7 +414,7 @@ def src_sx(r, ints, byts):
     if f == "bool":
         return S("true") if r[1] else S("false")
     if f == "iexpr":
-        return (S("iexpr"), ints[r[1]])
+        return (S("iexpr"), iexpr_value(r, ints))
     if f == "iconst":
         return (S("iexpr"), r[1])
     if f in ("blit", "str", "addrstr"):
@@ -433,9 +453,40 @@ class Builder:
         self.bytes_exprs = bytes_exprs      # list of Expr: the byte-string inputs
         self.steps = []
 
-    def int_leaf(self, k):
+    def int_leaf(self, k, wrap=None):
+        """run-time number k as an expression whose OUTERMOST node is `wrap` (the value comes from the application
+        arguments, so nothing can be folded at compile time)"""
         pt = self.pt
-        return pt.ExtractUint64(self.ints_expr, pt.Int(8 * k))
+        x = pt.ExtractUint64(self.ints_expr, pt.Int(8 * k))
+        if wrap is None or wrap == "extract64":
+            return x
+        if wrap == "btoi":
+            return pt.Btoi(pt.Extract(self.ints_expr, pt.Int(8 * k), pt.Int(8)))
+        if wrap == "extract32":
+            return pt.ExtractUint32(self.ints_expr, pt.Int(8 * k + 4))
+        if wrap == "extract16":
+            return pt.ExtractUint16(self.ints_expr, pt.Int(8 * k + 6))
+        if wrap == "getbyte":
+            return pt.GetByte(self.ints_expr, pt.Int(8 * k + 7))
+        if wrap == "getbit":
+            return pt.GetBit(self.ints_expr, pt.Int(64 * k + 63))
+        if wrap == "mul1":
+            return x * pt.Int(1)
+        if wrap == "add0":
+            return pt.Int(0) + x
+        if wrap == "if":
+            return pt.If(pt.Len(self.ints_expr) > pt.Int(0), x, pt.Int(0))
+        if wrap == "scratch":
+            sv = pt.ScratchVar(pt.TealType.uint64)
+            return pt.Seq(sv.store(x), sv.load())
+        if wrap == "subcall":
+            if not hasattr(self, "_ident"):
+                def ident(v):
+                    return v
+                ident.__annotations__ = {"v": pt.Expr}
+                self._ident = pt.Subroutine(pt.TealType.uint64)(ident)
+            return self._ident(x)
+        raise ValueError(wrap)
 
     def build(self, t, r, into=None):
         """Returns an instance of type t assembled as the recipe says (appending the set(...) expressions to
@@ -456,7 +507,7 @@ class Builder:
         elif f == "bool":
             self.steps.append(x.set(bool(r[1])))
         elif f == "iexpr":
-            self.steps.append(x.set(self.int_leaf(r[1])))
+            self.steps.append(x.set(self.int_leaf(r[1], r[2] if len(r) > 2 else None)))
         elif f == "iconst":
             self.steps.append(x.set(pt.Int(r[1])))
         elif f == "blit":
